@@ -312,10 +312,17 @@ func heavyFamily(budget time.Duration) mc.Family {
 		{"CMap, 0.4 million rounds in a 60 KB file", "cmap", loopCMap(400000, 60000)},
 		{"CMap, 0.3 million rounds in a 400 KB file", "cmap", loopCMap(300000, 400000)},
 	}
-	readers := []string{"bytes.Reader (seekable)", "plain io.Reader", "seekable reader positioned behind 1000 other bytes", "one byte per Read call"}
+	// AFM files whose last line is long and not ended by a line break (any limit on
+	// the length of a line must act the same however the bytes arrive)
+	afmHead := "StartFontMetrics 4.1\nFontName Long\nStartCharMetrics 1\nC 65 ; WX 500 ; N A ; B 0 0 10 10 ;\nEndCharMetrics\n"
+	for _, n := range []int{65535, 65536, 65537, 1<<20 - 1, 1 << 20, 1<<24 - 1, 1 << 24, 1<<24 + 1} {
+		line := "Notice " + strings.Repeat("n", n-7)
+		hs = append(hs, heavy{fmt.Sprintf("AFM file whose last line has %d bytes and no line end", n), "afm", []byte(afmHead + line)})
+	}
+	readers := []string{"bytes.Reader (seekable)", "plain io.Reader", "seekable reader positioned behind 1000 other bytes", "one byte per Read call (inputs above 2 MiB: the last bytes together with io.EOF)"}
 	return mc.Family{
 		Name: "heavy-inputs-through-different-readers", Items: len(hs), Budget: budget,
-		Rule: fmt.Sprintf("%d inputs whose programs run a loop of 0.3 .. 1.35 million rounds (just below and above the readers' own operation budgets) in files of 2 KB .. 400 KB, each read through %v: the four results (a font / CMap or the budget error) must be identical; non-trivial = all", len(hs), readers),
+		Rule: fmt.Sprintf("%d inputs whose programs run a loop of 0.3 .. 1.35 million rounds (just below and above the readers' own operation budgets) in files of 2 KB .. 400 KB, and AFM files whose unterminated last line has 65535 .. 2^24+1 bytes, each read through %v: the four results (a font / CMap or the budget error) must be identical; non-trivial = all", len(hs), readers),
 		Body: func(c *mc.Ctx, item int) mc.Verdict {
 			h := hs[item]
 			var obs []string
@@ -331,7 +338,11 @@ func heavyFamily(budget time.Duration) mc.Family {
 					br.Seek(1000, io.SeekStart)
 					r = br
 				default:
-					r = iotest.OneByteReader(bytes.NewReader(h.data))
+					if len(h.data) > 1<<21 {
+						r = iotest.DataErrReader(bytes.NewReader(h.data)) // (one byte per call would take minutes here) the last bytes together with io.EOF
+					} else {
+						r = iotest.OneByteReader(bytes.NewReader(h.data))
+					}
 				}
 				obs = append(obs, observe.Run(h.kind, r).Obs)
 				c.Step()
